@@ -291,7 +291,7 @@ def build(case, sched, callback_log=None):
     return b
 
 
-def run(case, dispose_at=None, dispose_early=False, horizon=2000, subscribe_at=200):
+def run(case, dispose_at=None, dispose_early=False, horizon=2000, subscribe_at=200, dispose_in=None):
     """Run one case on a fresh TestScheduler. Returns recorder log, per-source subscription lists, callback times,
     exceptions that escaped into the scheduler, and (if disposing) the dispose time."""
     from reactivex.testing import TestScheduler
@@ -305,8 +305,19 @@ def run(case, dispose_at=None, dispose_early=False, horizon=2000, subscribe_at=2
     b = build(case, sched)
     rec = Recorder(sched)
 
+    seen = [0]
+
+    def hooked(f):
+        # dispose_in = k: the subscriber disposes its subscription from INSIDE its k-th notification (re-entrant dispose)
+        def g(*a):
+            f(*a)
+            if dispose_in is not None and seen[0] == dispose_in:
+                _do_dispose(handle, sched)
+            seen[0] += 1
+        return g
+
     def sub(s, st):
-        handle["d"] = b.obs.subscribe(rec.on_next, rec.on_error, rec.on_completed, scheduler=sched)
+        handle["d"] = b.obs.subscribe(hooked(rec.on_next), hooked(rec.on_error), hooked(rec.on_completed), scheduler=sched)
         if handle.get("pending"):
             handle["d"].dispose()
             handle["disposed_at"] = int(sched.clock)
@@ -331,7 +342,7 @@ def run(case, dispose_at=None, dispose_early=False, horizon=2000, subscribe_at=2
         "escaped": escaped[:5],
         "queue_left": len(sched.queue) if hasattr(sched, "queue") else 0,
     }
-    if dispose_at is not None:
+    if dispose_at is not None or dispose_in is not None:
         out["disposed_at"] = handle.get("disposed_at")
         out["log_len_at_dispose"] = handle.get("log_len")
         out["cb_len_at_dispose"] = handle.get("cb_len")
